@@ -4,7 +4,8 @@ EXTENDS ValidateSeries, Json
 
 CONSTANTS MaxLen,        \* longest Series
           Rich,          \* TRUE: full check pool and check pairs
-          SliceName      \* "plain" | "parse"
+          SliceName,     \* "plain" | "parse" | "subsample"
+          SampleTable    \* set of <<len, n, random_state, positions>> observed from pandas.sample
 
 IntVals   == {iv(0), iv(1), iv(2)}
 FloatVals == {fv(-2), fv(1), fv(2), NA}
@@ -112,7 +113,27 @@ InitParse ==
                     [name |-> NA, pd |-> ParsePools[p][1], cells |-> cs, idx |-> ix[2],
                      idxpd |-> ix[1], idxname |-> NA], lz, ip, {})
 
-Init == IF SliceName = "plain" THEN InitPlain ELSE InitParse
+---------------------------------------------------------------------------
+(* subsample slice: head / tail / sample with repeated rows and repeated labels (C20) *)
+SubIdx(n) == { [i \in 1..n |-> iv(i - 1)], [i \in 1..n |-> iv(0)],
+               [i \in 1..n |-> iv((i - 1) % 2)], [i \in 1..n |-> iv(IF i = 1 THEN 1 ELSE 0)] }
+SubSchemas == { [BaseSchema EXCEPT !.dtype = "int64", !.checks = <<Chk("gt", <<iv(0)>>)>>],
+                [BaseSchema EXCEPT !.dtype = "int64", !.unique = TRUE],
+                [BaseSchema EXCEPT !.dtype = "float64", !.unique = TRUE, !.checks = <<Chk("gt", <<iv(0)>>)>>] }
+NoSample == <<0, 0, 0, <<>>>>
+InitSubsample ==
+  \E n \in 1..MaxLen : \E cs \in [1..n -> {iv(0), iv(1)}] : \E ix \in SubIdx(n) :
+  \E s \in SubSchemas : \E h \in -1..n : \E t \in -1..n :
+  \E smp \in {NoSample} \cup { e \in SampleTable : e[1] = n } : \E lz \in BOOLEAN :
+     /\ ~(h = -1 /\ t = -1 /\ smp = NoSample)
+     /\ st = StartSel(s, [name |-> NA, pd |-> "int64", cells |-> cs, idx |-> ix,
+                           idxpd |-> "int64", idxname |-> NA], lz, FALSE, {},
+                       [all |-> FALSE, pos |-> HeadTailSample(n, h, t, smp[4]),
+                        head |-> h, tail |-> t, sample |-> smp[2], rs |-> smp[3]])
+
+Init == CASE SliceName = "plain" -> InitPlain
+          [] SliceName = "parse" -> InitParse
+          [] SliceName = "subsample" -> InitSubsample
 Spec == Init /\ [][Next]_st
 
 (* back-end facts of Checks.tla on every explored pair *)
@@ -133,7 +154,7 @@ Predict(s) == [kind |-> s.out.kind,
                errors |-> IF s.out.kind = "ok" THEN <<>> ELSE s.out.errors,
                input_after |-> s.inp]
 ShippedDevs == {"IndexFailureCasesByPosition", "IndexCoercionReportedTwice"}
-AsShipped(s) == Run(Start(s.S, s.inp0, s.lazy, s.inplace, ShippedDevs))
+AsShipped(s) == Run(StartSel(s.S, s.inp0, s.lazy, s.inplace, ShippedDevs, s.sel))
 
 (* vector emission *)
 EmitPlain ==
@@ -149,6 +170,16 @@ EmitParse ==
                     expect |-> Predict(st),
                     asis |-> Predict(AsShipped(st)),
                     devs |-> { d \in ShippedDevs :
-                                 Predict(Run(Start(st.S, st.inp0, st.lazy, st.inplace, {d}))) # Predict(st) }]))
-Emit == IF SliceName = "plain" THEN EmitPlain ELSE EmitParse
+                                 Predict(Run(StartSel(st.S, st.inp0, st.lazy, st.inplace, {d}, st.sel))) # Predict(st) }]))
+EmitSubsample ==
+  st.pc = "done" =>
+     LET shipped == Run(StartSel(st.S, st.inp0, st.lazy, st.inplace, {"SubsampleDedupByLabel"}, st.sel))
+     IN PrintT(ToJson([kind |-> "series_run", schema |-> st.S, data |-> st.inp0,
+                       opts |-> [lazy |-> st.lazy, inplace |-> FALSE, sel |-> st.sel.pos, head |-> st.sel.head,
+                                 tail |-> st.sel.tail, sample |-> st.sel.sample, random_state |-> st.sel.rs],
+                       expect |-> Predict(st), asis |-> Predict(shipped),
+                       devs |-> IF Predict(shipped) # Predict(st) THEN {"SubsampleDedupByLabel"} ELSE {}]))
+Emit == CASE SliceName = "plain" -> EmitPlain
+          [] SliceName = "parse" -> EmitParse
+          [] SliceName = "subsample" -> EmitSubsample
 =============================================================================
